@@ -2,7 +2,7 @@
 from __future__ import annotations
 
 from vf.symx import AND, OR, NOT, IMPLIES, IFF, ite, PathAbort
-from .common import native_triple, td_us, tod_us, exc_name
+from .common import native_triple, td_us, tod_us, exc_name, mixed_amount
 
 ID = "C20"
 FUNCTIONS = [
@@ -29,12 +29,12 @@ def _time(ctx, p):
                       ctx.int(p + "u", 0, 999999))
 
 
-def add_sub(ctx, method, H, M, S, U):
+def add_sub(ctx, method, days):
     t = _time(ctx, "t")
-    hours = ctx.int("hours", -H, H)
-    minutes = ctx.int("minutes", -M, M)
-    seconds = ctx.int("seconds", -S, S)
-    micro = ctx.int("micro", -U, U)
+    hours = mixed_amount(ctx, "hours", "h", days)
+    minutes = mixed_amount(ctx, "minutes", "m", days)
+    seconds = mixed_amount(ctx, "seconds", "s", days)
+    micro = mixed_amount(ctx, "micro", "us", days)
     amt = ((hours * 60 + minutes) * 60 + seconds) * 1000000 + micro
     sign = 1 if method == "add" else -1
     r = getattr(t, method)(hours=hours, minutes=minutes, seconds=seconds, microseconds=micro)
@@ -114,14 +114,12 @@ def closest(ctx, which):
 
 
 def cases(tier):
-    if tier == "quick":
-        H, M, S, U = 240, 14400, 864000, 864000 * 10**6
-    else:
-        H, M, S, U = 2400, 144000, 8640000, 8640000 * 10**6
-    b = f"every time of day x hours in +-{H}, minutes +-{M}, seconds +-{S}, microseconds +-{U}"
+    days = 10 if tier == "quick" else 1000
+    b = (f"every time of day x hours, minutes, seconds, microseconds each of either sign and each spanning up to "
+         f"+-{days} days (given as mixed-radix digits)")
     return [
-        dict(name="add", fn=add_sub, params=dict(method="add", H=H, M=M, S=S, U=U), bounds=b),
-        dict(name="subtract", fn=add_sub, params=dict(method="subtract", H=H, M=M, S=S, U=U), bounds=b),
+        dict(name="add()", fn=add_sub, params=dict(method="add", days=days), bounds=b),
+        dict(name="subtract()", fn=add_sub, params=dict(method="subtract", days=days), bounds=b),
     ] + [
         dict(name=f"timedelta {op}", fn=timedelta_ops, params=dict(op=op),
              bounds="every time of day x every timedelta with days in -2..2, any seconds/microseconds")
